@@ -2,12 +2,12 @@ SPECIFICATION Spec
 CONSTANTS
   Configs <- CfgFault
   Window = 2
-  MaxFaults = 2
+  MaxFaults = 1
   FaultKinds <- AllKinds
   MaxPauses = 0
   TimeoutTicks = 2
   MaxTicks = 3
-  Weaken = "none"
+  Weaken = "final"
   StopRoles <- NoRoles
 INVARIANTS TypeOK Fidelity NoSilentCorruption NoFalseSuccess CleanRunSucceeds
 CHECK_DEADLOCK FALSE
